@@ -129,6 +129,34 @@ def gen_movie(rng, thorough=False, plant_history=False, dense=False):
             crowd.append([ci + rng.randint(-rad, rad) for ci in c])
         frames[k] = crowd
         frames[k + 1] = [list(c)] + ([[ci + 3 * int(max(sr) / 4.0) + 2 for ci in c]] if rng.random() < 0.5 else [])
+    if dim == 2 and nfr >= 2 and rng.random() < 0.06:
+        # a "crowded star": ONE source with 11 features within range while every feature has about six
+        # candidate sources; ten helper sources sit right beside the star's ten nearest features, so
+        # that the optimum gives the centre its ELEVENTH nearest candidate.  (The documented cap of MAX_NEIGHBORS is per feature;
+        # a cap applied per source loses that candidate.)
+        import math
+        R = 40
+        ph = rng.random() * 2 * math.pi
+        offs = []
+        for j in range(11):
+            rad = 32.0 if j < 10 else 36.0
+            th = ph + 2 * math.pi * j / 11
+            offs.append((int(round(rad * math.cos(th))), int(round(rad * math.sin(th)))))
+        d2 = [o[0] * o[0] + o[1] * o[1] for o in offs]
+        helpers = [(int(round(1.06 * o[0])), int(round(1.06 * o[1]))) for o in offs[:10]]
+        ok = len(set(offs)) == 11 and len(set(helpers) | set(offs)) == 21 and max(d2[:10]) < d2[10] < R * R
+        if ok:
+            zoom = max(1, int(R / (max(sr) / 4.0)))     # the other levels keep their density
+            sr, iso = [4 * R, 4 * R], True
+            k = rng.randrange(0, nfr - 1)
+            c = [rng.randrange(200), rng.randrange(200)]
+            frames[k] = [list(c)] + [[c[0] + h[0], c[1] + h[1]] for h in helpers]
+            frames[k + 1] = [[c[0] + o[0], c[1] + o[1]] for o in offs]
+            rng.shuffle(frames[k])
+            rng.shuffle(frames[k + 1])
+            for j in range(nfr):
+                if j not in (k, k + 1):       # keep the other levels away from the star
+                    frames[j] = [[zoom * p[0] + 4000, zoom * p[1] + 4000] for p in frames[j]]
     # uniform power-of-two rescaling of coordinates and search_range (exact in float64; the
     # monitor's integer costs do not change: Props/C03 scale_invariant).  Small magnitudes expose
     # absolute tolerances, large ones loss of precision.
